@@ -275,7 +275,7 @@ STORE_FAMILY = ("C01", "C02", "C03", "C04", "C05", "C06", "C07", "C08", "C17")
 STORE_TIE_THEOREMS = ['gen_p_get_is_model', 'gen_p_setnx_is_model', 'gen_p_cas_is_model', 'gen_a_get_is_model', 'gen_a_setnx_is_model', 'gen_a_cas_is_model', 'gen_b_get_is_model', 'gen_b_setnx_is_model', 'gen_b_cas_is_model', 'gen_cleanup_placement']
 
 STORE_TIE_AUDIT = """Require Import TC.Base.Map TC.Store.Stores TC.Store.GenStoreOps TC.Generated.StoreGen TC.Store.GenStoreTie.
-From Coq Require Import ZArith Bool.
+From Coq Require Import ZArith Bool String List.
 Open Scope Z_scope.
 Check gen_p_get_is_model : forall e now, gen_p_get (lift e) now = m_get e now.
 Check gen_a_get_is_model : forall e now, gen_a_get (lift e) now = m_get e now.
@@ -296,6 +296,18 @@ Check gen_a_cas_is_model : forall e old new ttl now,
   eff_wf (gen_a_cas (lift e) old new ttl now).
 Check gen_cleanup_placement :
   gen_p_cleans = (false, true, true) /\\ gen_a_cleans = (false, true, true) /\\ gen_b_cleans = (false, true, true).
+Check gen_p_keep_is_model : forall sf ex now, gen_p_keep sf (Some ex) now = (now <? ex).
+Check gen_a_keep_is_model : forall sf ex now, gen_a_keep sf (Some ex) now = (now <? ex).
+Check gen_b_keep_is_model : forall sf ex now, gen_b_keep sf (Some ex) now = (now <? ex).
+Check gen_retain_is_model : forall (K : Type) sf (d : data K) now,
+  retain K d now = List.filter (fun p => gen_p_keep sf (Some (snd (snd p))) now) d /\\
+  retain K d now = List.filter (fun p => gen_a_keep sf (Some (snd (snd p))) now) d /\\
+  retain K d now = List.filter (fun p => gen_b_keep sf (Some (snd (snd p))) now) d.
+Check gen_p_clean_is_model : forall (K : Type) (s : pstate K) sf now,
+  sf "next_cleanup"%string = p_next K s -> sf "cleanup_interval"%string = p_interval K s ->
+  p_next K (p_clean K s now) = (if gen_p_due sf now then gen_p_next sf now else p_next K s) /\\
+  p_data K (p_clean K s now) = (if gen_p_due sf now then retain K (p_data K s) now else p_data K s) /\\
+  p_interval K (p_clean K s now) = p_interval K s.
 Check d_get_entry : forall K keqb d k now, d_get K keqb d k now = m_get (lookup keqb d k) now.
 Check d_setnx_entry : forall K keqb d k v ttl now, d_setnx K keqb d k v ttl now =
   let r := m_setnx (lookup keqb d k) v ttl now in (apply_ins K keqb d k (fst (fst r)), snd (fst r), snd r).
@@ -342,7 +354,7 @@ def store_tie(ctx):
         ctx.notes.append("T1b: Generated/StoreGen.v does not compile; T2 is the only tie for the store methods in this run")
         return
     res = coq_eval(ctx, "storediff", "Require Import TC.Store.GenStoreDiff.",
-                   ["(N.of_nat (List.length store_disagreements), cleans_ok, firstn 3 store_disagreements)"])
+                   ["(N.of_nat (List.length store_disagreements + List.length sweep_disagreements), cleans_ok, firstn 3 store_disagreements, firstn 3 sweep_disagreements)"])
     if res is None:
         info["status"] = "tie not proved; lattice comparison did not evaluate"
         ctx.notes.append("T1b: store lattice comparison did not evaluate")
@@ -354,7 +366,7 @@ def store_tie(ctx):
         info["status"] = "a store method differs from the model"
         ctx.broken.append("T1b: a trait method of a built-in store, as translated from the current source, differs from the model the theorems are about "
                           "(Store/GenStoreTie.v no longer compiles); (count, cleanup placement ok, first differing (store 0=periodic 1=adaptive 2=probabilistic, "
-                          "method 0=get 1=set_if_not_exists 2=compare_and_swap, entry (value, expiry), now, a, b, ttl)): " + res[0][:700])
+                          "method 0=get 1=set_if_not_exists 2=compare_and_swap, entry (value, expiry), now, a, b, ttl); first differing sweep (store / 3 = periodic trigger, expiry, now, next_cleanup, interval)): " + res[0][:700])
 
 
 # ----------------------------------------------------------------------------- Coq
